@@ -180,6 +180,12 @@ def eval_parser(e, ctx, env):
             a1, a2 = ctx.fresh('separators'), ctx.fresh('items')
             ctx.sub_vcs.append(('%s.item' % f, c2, o2))
             return [a1, a2], A(a2)                # separators are consumed and dropped
+        if f in ('map_parser', 'flat_map', 'and_then'):
+            # the outer parser decides what is consumed; the value comes from a second parser run on that fragment,
+            # which may leave part of it unread: consumption and leaves are not the same thing any more
+            c1, o1 = eval_parser(args[0], ctx, env)
+            inner = ctx.fresh('%s.inner' % f)
+            return c1, A(inner)
         if f == 'success':
             return [], UNIT
         if f in ('fold_many0', 'fold_many1'):
